@@ -50,8 +50,9 @@ type convOutcome struct {
 	Anomalies    []string
 	Inconclusive string
 	Nontrivial   bool
-	// state after each command prefix, for C10 (device file text).
-	Prefixes []string
+	// state after each command prefix, for C10: device file text and model.
+	Prefixes     []string
+	PrefixModels []any
 }
 
 // genPair dispatches to the generator of a device type.
@@ -181,6 +182,7 @@ func convNSX(env *run.Env, g *genCase, o *convOutcome, changed, wantPrefixes boo
 		}
 		if wantPrefixes {
 			o.Prefixes = append(o.Prefixes, store.DeviceConfig().JSON())
+			o.PrefixModels = append(o.PrefixModels, store.Clone())
 		}
 	}
 	if o.Exec != nil {
@@ -286,6 +288,7 @@ func convPANOS(env *run.Env, g *genCase, o *convOutcome, changed, wantPrefixes b
 		}
 		if wantPrefixes {
 			o.Prefixes = append(o.Prefixes, dev.ConfigXML())
+			o.PrefixModels = append(o.PrefixModels, dev.Clone())
 		}
 	}
 	if o.Exec != nil {
